@@ -12,6 +12,9 @@ CLAIMED = {
  "C01": ("post-condition monitor on the real ExactGP.__call__ against a dense float64 Gaussian-conditional oracle, with path witnesses",
          "Runtime monitoring: the real ExactGP.__call__ is wrapped; every posterior call made by a generated workload (kernels x means x likelihoods x shapes x batch patterns x all 2^5 prediction-settings combinations + skip/fast_computations variants + Kronecker multitask) is compared (mean, covariance, variance, mean_cache, covar_cache, likelihood noise step) with the dense conditional built from the model's own prior pieces; counters on linear_cg / lanczos / cholesky / lazy evaluation show which paths ran. Decides executed cells only.",
          "Trusts torch.linalg dense algebra; kernel/mean/likelihood values themselves are the model's own (C05/C12 check them); CG path compared at 1e-3 (linear_operator's CG accuracy floor), LOVE-on-Lanczos at 2e-2, direct paths at 1e-8.", "DESIGN.md §4 C01"),
+ "C05": ("reference-model monitor: real kernel(x1,x2) / diag outputs vs independent docstring formulas and autograd derivatives, with fast-path witnesses",
+         "Runtime monitoring at the public kernel boundary: every exported closed-form kernel (RBF, Matern x3, RQ, periodic, cosine, linear, polynomial, constant, piecewise-polynomial q0-3, spectral mixture, Hamming, scale/sum/product, additive/product structure, Newton-Girard, active_dims incl. permuted) is evaluated over n1!=n2 / same-tensor / n=1, ARD, parameter and input batches, three evaluation paths (fast no-grad, inputs requiring grad, trace_mode), three parameter regimes, and compared with formulas written from the docstrings; derivative kernels (RBF-grad, Matern52-grad, polynomial-grad, RBF-grad-grad; ARD) are compared with autograd derivatives of the base kernel in the interleaved layout. Decides executed cells only.",
+         "Oracle formulas are hand-written from the docstrings (trusted after agreeing with the tree on all cells except the recorded findings); kernels non-smooth at r=0 compared at 1e-6..2e-5 absolute.", "DESIGN.md §4 C05"),
 }
 NOT_YET = "check not built yet in this round (see DESIGN.md §9 build order); not claimed until its monitor exists and is silent on the unchanged tree"
 
